@@ -226,8 +226,21 @@ def explain(ex, limit=60):
     return ' '.join(parts)
 
 
+def split_prefixes(layout, names, programs, bound, lock_bonus=0,
+                   deliver=False, nchunks=16):
+    """Run the default schedule once and return the first-level deviation
+    prefixes in ``nchunks`` groups (to spread one pair over the workers)."""
+    from ..procs import children
+    pre = [programs[n][0](i) for i, n in enumerate(names)]
+    progs = [programs[n][1](i) for i, n in enumerate(names)]
+    ex, _ = run_schedule(layout, progs, [], deliver=deliver, pre=pre)
+    drop_templates()
+    ch = children(ex, [], bound, lock_bonus)
+    return [ch[k::nchunks] for k in range(nchunks) if ch[k::nchunks]]
+
+
 def explore_pair(layout, names, programs, judge, bound, deliver=False,
-                 cap=None, tag='mt'):
+                 cap=None, tag='mt', lock_bonus=0, prefixes=None):
     """Explore every schedule (<= bound preemptions) of the program pair
     ``names`` from the table ``programs`` (name -> (prologue(i), program(i),
     ...)); ``judge(layout, names, deliver, ex, info)`` -> violations."""
@@ -251,7 +264,8 @@ def explore_pair(layout, names, programs, judge, bound, deliver=False,
                             for _, r, _ in res)))
         return ex, info
     try:
-        st = explore(run, bound, max_execs=cap)
+        st = explore(run, bound, max_execs=cap, lock_bonus=lock_bonus,
+                     prefixes=prefixes)
     except ScheduleError as exc:
         return {'error': repr(exc), 'names': names}
     finally:
